@@ -156,6 +156,15 @@ TABLE.update({
                   (r"^IdRanges::contains_clock\(BTreeMap::get\(\$1\.0, \$2\.client\), \$2\.clock\)$", "C")],
         "req": lambda n: n["E"] and n["C"],
     },
+    "link_is_single": {
+        "fn": "yrs::types::weak::LinkSource::is_single",
+        "why": "a link quotes a single element iff both boundaries are element-relative and name the SAME id (client and clock): "
+               "the wire format then omits the end id and the reader copies the start",
+        "atoms": [(r"^StickyIndex::scope\(\$1\.quote_start\) is Relative$", "S"), (r"^StickyIndex::scope\(\$1\.quote_end\) is Relative$", "E"),
+                  (r"^PartialEq<&B>>::eq\(StickyIndex::scope\(\$1\.quote_start\) as Relative\.0, StickyIndex::scope\(\$1\.quote_end\) as Relative\.0\)$", "SAME"),
+                  (r"^PartialEq>::eq\(StickyIndex::scope\(\$1\.quote_start\) as Relative\.0, StickyIndex::scope\(\$1\.quote_end\) as Relative\.0\)$", "SAME")],
+        "req": lambda n: n["S"] and n["E"] and n["SAME"],
+    },
     "same_type": {
         "fn": "yrs::block::Block::same_type",
         "why": "two blocks are of the same kind iff both GC, both Item or both Skip",
